@@ -46,10 +46,66 @@ struct C06Out {
     trace: Option<Vec<String>>,
 }
 
+/// Closing steps shared by C05, C06 and C07: drop every handle, delete the persistent savepoints
+/// the model knows, then at most 8 empty durable commits must drain every pending-free list with
+/// the independent accounting exact throughout. Returns the number of commits it took.
+pub fn final_drain(m: &mut Machine) -> R<u32> {
+    m.finish()?;
+    // boundedness: once nothing holds old pages, a few empty durable commits drain every
+    // pending-free list, and allocated == reachable
+    m.drop_all_handles();
+    let ids: Vec<u64> = m.last().psp.keys().copied().collect();
+    if !ids.is_empty() {
+        m.begin_write(Dur::Immediate, false, false)?;
+        {
+            let w = m.w.as_mut().unwrap();
+            let txn = w.txn.as_ref().unwrap();
+            for id in &ids {
+                match txn.delete_persistent_savepoint(*id) {
+                    Ok(true) => {
+                        w.work.psp.remove(id);
+                    }
+                    Ok(false) => sfail!("savepoint-lost", "persistent savepoint {id} of the model could not be deleted (not found)"),
+                    Err(e) => return Err(Stop::Io(format!("{e:?}"))),
+                }
+            }
+            w.psp_modified = true;
+        }
+        m.commit()?;
+    }
+    let mut drained_after = None;
+    for i in 0..8u32 {
+        let a = match account(m.db.as_ref().unwrap()) {
+            Ok(a) => a,
+            Err(e) => sfail!("page-accounting", "during the final drain (empty commit {i}): {e}"),
+        };
+        if a.pending_free == 0 {
+            drained_after = Some(i);
+            break;
+        }
+        m.begin_write(Dur::Immediate, false, false)?;
+        m.commit()?;
+    }
+    let Some(n) = drained_after else {
+        let a = account(m.db.as_ref().unwrap()).map_err(|e| Stop::Fail(Failure::new("page-accounting", e)))?;
+        sfail!("pending-free-not-drained", "with no reader and no savepoint alive, {} pages are still pending free after 8 empty durable commits (storage does not return to its level)", a.pending_free);
+    };
+    // nothing is alive: after one more durable commit (a pending non-durable commit legitimately
+    // pins the last durable snapshot until then) the transaction tracker must not pin anything
+    m.begin_write(Dur::Immediate, false, false)?;
+    m.commit()?;
+    let live = m.db.as_ref().unwrap().verif_snapshot().live_read_transactions;
+    if !live.is_empty() {
+        sfail!("tracker-leak", "every reader and savepoint is gone, but the transaction tracker still pins snapshots {live:?} (id, references)");
+    }
+    Ok(n)
+}
+
 fn run_c06(tape: &Tape, trace: bool) -> (C06Out, Result<(), Failure>) {
     let mut out = C06Out::default();
     let r = (|| -> R {
         let mut m = Machine::new(decode_cfg(tape), p_c06(tape), false, trace)?;
+        m.set_bulk_from(tape);
         let mut pinned_seen = false;
         for rec in &tape.recs {
             let res = m.exec(rec);
@@ -69,46 +125,7 @@ fn run_c06(tape: &Tape, trace: bool) -> (C06Out, Result<(), Failure>) {
                 }
             }
         }
-        m.finish()?;
-        // boundedness: once nothing holds old pages, a few empty durable commits drain every
-        // pending-free list, and allocated == reachable
-        m.drop_all_handles();
-        let ids: Vec<u64> = m.last().psp.keys().copied().collect();
-        if !ids.is_empty() {
-            m.begin_write(Dur::Immediate, false, false)?;
-            {
-                let w = m.w.as_mut().unwrap();
-                let txn = w.txn.as_ref().unwrap();
-                for id in &ids {
-                    match txn.delete_persistent_savepoint(*id) {
-                        Ok(true) => {
-                            w.work.psp.remove(id);
-                        }
-                        Ok(false) => sfail!("savepoint-lost", "persistent savepoint {id} of the model could not be deleted (not found)"),
-                        Err(e) => return Err(Stop::Io(format!("{e:?}"))),
-                    }
-                }
-                w.psp_modified = true;
-            }
-            m.commit()?;
-        }
-        let mut drained_after = None;
-        for i in 0..8u32 {
-            let a = match account(m.db.as_ref().unwrap()) {
-                Ok(a) => a,
-                Err(e) => sfail!("page-accounting", "during the final drain (empty commit {i}): {e}"),
-            };
-            if a.pending_free == 0 {
-                drained_after = Some(i);
-                break;
-            }
-            m.begin_write(Dur::Immediate, false, false)?;
-            m.commit()?;
-        }
-        let Some(n) = drained_after else {
-            let a = account(m.db.as_ref().unwrap()).map_err(|e| Stop::Fail(Failure::new("page-accounting", e)))?;
-            sfail!("pending-free-not-drained", "with no reader and no savepoint alive, {} pages are still pending free after 8 empty durable commits (storage does not return to its level)", a.pending_free);
-        };
+        let n = final_drain(&mut m)?;
         out.drain_commits_max = n;
         if pinned_seen {
             out.pinned_then_drained = true;
